@@ -532,7 +532,14 @@ pub fn render(lines: &[Line], ch: &mut Ch, opts: LayoutOpts) -> Rendered {
                 let must = wordlike(prev) && wordlike(t) && !num_then_xzc;
 
                 if vary {
-                    let b = blank(ch, &mut st, !must && !is_header);
+                    // (a number glued to the X / Z / C entry behind it is a rare and telling shape:
+                    // half of these sites lose their blank)
+                    let b = if num_then_xzc && !is_header && ch.chance(1, 2) {
+                        st.removed_blanks += 1;
+                        String::new()
+                    } else {
+                        blank(ch, &mut st, !must && !is_header)
+                    };
                     if num_then_xzc && b.is_empty() {
                         st.num_xzc_sites += 1;
                     }
